@@ -220,6 +220,9 @@ func specFor(c *eng.Ctx, l layout, idx int) *CaseSpec {
 			if o.CloseH == "default" {
 				o.CloseH = "nil-option"
 			}
+			if fw == FWGin && o.HandleH == "default" {
+				o.HandleH = "nil-option"
+			}
 		}
 		tr := defaultTransport(fw)
 		n := 3 + r.Intn(l.maxLen-2)
